@@ -142,6 +142,99 @@ def make_anno(nf_map):
     return a
 
 
+def cli_pool_stream(ctx: common.Ctx, rules):
+    """The pool as the COMMANDS build it: generateIndex, updateIndex and the on-the-fly
+    reference loader, with the CLI spelling of the exception ('auto' included), against the
+    Lean pool under the documented resolution of 'auto'."""
+    import argparse
+    import pickle
+    import shutil
+    from pathlib import Path
+    from . import gen_ref
+    gen_ref._imports()
+    from moPepGen.cli.generate_index import generate_index
+    from moPepGen.cli.update_index import update_index
+    from moPepGen.cli import common as cli_common
+    from moPepGen import params
+    from moPepGen.index import IndexDir
+    rng = ctx.rng('cli_pool')
+    cases = []
+    motifs = ['ACKDA', 'GCKHA', 'TCKYA', 'ACRKA', 'ARRHA', 'ARRRA', 'AWKPA', 'AMRPA']
+    for i in range(ctx.n(12, 80)):
+        case = gen_ref.Case(gen_ref.work_dir('c10cli'))
+        try:
+            with gen_ref.quiet():
+                _g, anno, prot = gen_ref.make_reference(case, rng.randrange(1 << 30), rng.choice([1, 2, 3]))
+            # plant exception / look-around motifs into the proteome file
+            recs = []
+            for tx, rec in prot.items():
+                seq = str(rec.seq)
+                for _ in range(rng.randint(1, 4)):
+                    j = rng.randrange(1, max(2, len(seq)))
+                    seq = seq[:j] + rng.choice(motifs) + seq[j:]
+                recs.append((rec.description, tx, seq))
+            if not recs:
+                continue
+            with open(case.proteome, 'wt') as fh:
+                for d, _tx, seq in recs:
+                    fh.write(f'>{d}\n{seq}\n')
+            nfmap = {tx: anno.transcripts[tx].is_cds_start_nf() for _d, tx, _s in recs}
+            for spelling in ['auto', 'trypsin_exception', None]:
+                enzyme = 'trypsin' if rng.random() < 0.8 else rng.choice(['lysc', 'arg-c'])
+                misc = rng.choice([0, 1, 2])
+                base = dict(cleavage_rule=enzyme, cleavage_exception=spelling, miscleavage=misc,
+                            min_mw=500., min_length=7, max_length=25)
+                exc = spelling
+                if exc == 'auto':
+                    exc = 'trypsin_exception' if enzyme == 'trypsin' else None
+                enc = ';'.join(f'{int(bool(nfmap[tx]))}:{seq}' for _d, tx, seq in recs)
+                line = (f'C10\tpool\t{enzyme}\t{exc or "-"}\t{misc}\t{mw_int(500.)}\t7\t25\t{enc}')
+
+                def ns(**kw):
+                    a = argparse.Namespace(
+                        genome_fasta=case.genome, annotation_gtf=case.gtf,
+                        proteome_fasta=case.proteome, gtf_symlink=False, reference_source=None,
+                        invalid_protein_as_noncoding=False, quiet=True, force=False,
+                        debug_level=1, index_dir=None, **base)
+                    for k, v in kw.items():
+                        setattr(a, k, v)
+                    return a
+                cp = params.CleavageParams(enzyme=enzyme, exception=spelling, miscleavage=misc,
+                                           min_mw=500., min_length=7, max_length=25)
+                # (1) on the fly
+                with gen_ref.quiet():
+                    _a, _b, _c, canon = cli_common.load_references(
+                        args=ns(command='callVariant'), cleavage_params=cp)
+                cases.append((line, ','.join(sorted(canon)), {'path': 'on-the-fly', **base,
+                              'proteins': [s for _d, _t, s in recs]}))
+                # (2) generateIndex, (3) updateIndex with other miscleavage
+                idx = case.dir / f'index_{spelling}'
+                shutil.rmtree(idx, ignore_errors=True)
+                with gen_ref.quiet():
+                    generate_index(ns(command='generateIndex', output_dir=idx))
+                    pool = IndexDir(idx).load_canonical_peptides(cp)
+                cases.append((line, ','.join(sorted(pool)), {'path': 'generateIndex', **base,
+                              'proteins': [s for _d, _t, s in recs]}))
+                misc2 = (misc + 1) % 3
+                base2 = dict(base, miscleavage=misc2)
+                cp2 = params.CleavageParams(enzyme=enzyme, exception=spelling, miscleavage=misc2,
+                                            min_mw=500., min_length=7, max_length=25)
+                a2 = ns(command='updateIndex', index_dir=idx)
+                a2.miscleavage = misc2
+                with gen_ref.quiet():
+                    update_index(a2)
+                    pool2 = IndexDir(idx).load_canonical_peptides(cp2)
+                line2 = (f'C10\tpool\t{enzyme}\t{exc or "-"}\t{misc2}\t{mw_int(500.)}\t7\t25\t{enc}')
+                cases.append((line2, ','.join(sorted(pool2)), {'path': 'updateIndex', **base2,
+                              'proteins': [s for _d, _t, s in recs]}))
+        finally:
+            case.cleanup()
+    ctx.diff_stream('cli_pool', cases, True, lambda o: o, lambda o: o != '',
+                    'the canonical pool built by generateIndex / updateIndex / on the fly is not '
+                    'the digest of the proteome under the requested cleavage parameters')
+    shutil.rmtree(gen_ref.WORK, ignore_errors=True)
+
+
 def run(ctx: common.Ctx):
     sys.path.insert(0, common.REPO)
     from moPepGen.aa.AminoAcidSeqRecord import AminoAcidSeqRecord
@@ -283,6 +376,7 @@ def run(ctx: common.Ctx):
                                    'proteins': [(tx, s, nfmap.get(tx)) for tx, s in prots]}))
     ctx.diff_stream('pool', cases, True, lambda o: o, lambda o: o != '',
                     'canonical pool is not the digest of the proteome')
+    cli_pool_stream(ctx, rules)
     ctx.assumptions += [
         'Python re / regex engines (validated exhaustively against Re.matchAt on the bounded strings above)',
         'float summation in Bio.SeqUtils.molecular_weight vs exact 1e-4 Da integers '
